@@ -158,6 +158,7 @@ Tags(op, S) ==
   \cup (IF op.a = "LoadDoc" /\ "fmt" \in DOMAIN S.doc /\ S.doc.c.dir = "min" THEN {"doc_dir_min"} ELSE {})
   \cup (IF op.a = "LoadDoc" /\ "fmt" \in DOMAIN S.doc /\ FmtFamily(S.doc.fmt) \in {"json", "yaml", "dict"} THEN {"doc_textfmt"} ELSE {})
   \cup (IF op.a = "LoadDoc" /\ "fmt" \in DOMAIN S.doc /\ FmtFamily(S.doc.fmt) = "sbml" THEN {"doc_sbml"} ELSE {})
+  \cup (IF IsModel(S.m[s]) /\ "uvr4" \in S.m[s].xcols THEN {"user_variable_named_like_reaction"} ELSE {})
   \cup (IF IsModel(S.m[s]) /\ S.m[s].solver = "glpk_exact" THEN {"solver_exact"} ELSE {})
   \cup (IF IsModel(S.m[s]) /\ (\E r \in S.m[s].rxns : S.m[s].lb[r] = -INF \/ S.m[s].ub[r] = INF) THEN {"infinite_bound"} ELSE {})
   \cup (IF IsModel(S.m[s]) /\ S.m[s].dir = "min" THEN {"dir_min"} ELSE {})
